@@ -189,6 +189,15 @@ Proof.
   exact V0.
 Qed.
 
+(** ** The interpreter the correspondence drivers run *)
+
+(** [sem_edge] (DD/Table.v), which the OCaml drivers evaluate on lifted
+    snapshots to obtain value tables, is [semc] with the standard fuel on a
+    BCDD table (value codes 0 = false, 1 = true) *)
+Theorem sem_edge_bcdd : forall s e c, s_kind s = KBcdd ->
+  sem_edge s e c = option_map (fun b : bool => if b then 1%N else 0%N) (semc s (CFUEL s) e c).
+Proof. intros s e c Hk. unfold sem_edge. rewrite Hk. reflexivity. Qed.
+
 (** ** Evaluation *)
 
 (** the Boolean function (of variable assignments) of an edge under the
